@@ -219,7 +219,13 @@ func GenPlan(t *rapid.T, profile string, k Knobs) *Plan {
 			phase := rapid.SampledFrom([]string{"issued", "applied", "returning"}).Draw(t, "ps_phase")
 			act := GenStopAction(t, 0, i, h)
 			delay := rapid.SampledFrom([]time.Duration{0, 0, 1}).Draw(t, "ps_delay")
-			p.Instances[i].Rules = append(p.Instances[i].Rules, OpRule{Kind: kind, N: nth, Trigger: &Trigger{Phase: phase, Delay: delay, Action: act}})
+			tr := &Trigger{Phase: phase, Delay: delay, Action: act}
+			if rapid.IntRange(0, 1).Draw(t, "ps_follow") == 0 {
+				// ... and started again while that operation may still be in flight
+				tr.Follow = &Action{Kind: ActStart, Inst: i}
+				tr.FollowDelay = rapid.SampledFrom([]time.Duration{1, 1, 1001, latMax / 3, latMax}).Draw(t, "ps_follow_delay")
+			}
+			p.Instances[i].Rules = append(p.Instances[i].Rules, OpRule{Kind: kind, N: nth, Trigger: tr})
 		}
 	}
 	if k.Faults {
